@@ -423,11 +423,15 @@ def clause_i(facts, rep, nss):
         bad = None
         try:
             for x in vals:
-                got = Interp(f, facts).run({f.params[0]['id']: x}, {})[0]
+                try:
+                    got = Interp(f, facts).run({f.params[0]['id']: x}, {})[0]
+                except UndefinedBehaviour as ex:
+                    bad = '%s(0x%016x) has undefined behaviour: %s' % (f.short, x, ex)
+                    break
                 if got != ref[f.short](x):
                     bad = '%s(0x%016x) = %s, expected %s' % (f.short, x, got, ref[f.short](x))
                     break
-        except (Unsupported, UndefinedBehaviour) as ex:
+        except Unsupported as ex:
             raise AnalysisBroken('C15.i: %s not evaluable: %s' % (f.qn, ex))
         n += 1
         rep.check(bad is None, 'E5.bit-primitive', f.qn, '%s agrees with its definition on %d masks' % (f.short, len(vals)), f.loc, bad or '', facts.config)
